@@ -221,6 +221,11 @@ def run(ctx, chk):
     null_rule(prog, chk)
     block_write_rule(prog, chk)
     sibling_null_rule(prog, chk)
+    # R12.10 the assembly fast paths of the big-number helpers touch exactly the `len` bytes their guard established (C14's R14.8
+    # engine, extent part): a 64-bit limb on the last 4 bytes of a 12-byte nonce reads and writes 4 bytes past it
+    from . import c14
+    if not chk.relaxed:
+        c14.asm_limb_rule(prog, chk, "R12.10", parts=("extent",))
 
 
 DEREF_FILL = ("memset", "llvm.memset", "sodium_memzero")
